@@ -35,6 +35,35 @@ class IDtype:
 
 
 int64 = IDtype('int64')
+int8, int16, int32 = IDtype('int8'), IDtype('int16'), IDtype('int32')
+uint8, uint16, uint32, uint64 = IDtype('uint8'), IDtype('uint16'), IDtype('uint32'), IDtype('uint64')
+
+
+def _as_idtype(dt):
+    if isinstance(dt, IDtype):
+        return dt
+    nm = getattr(dt, 'name', None) or getattr(dt, '__name__', None)
+    if nm not in BITS:
+        raise StubGap(f'integer dtype expected, got {dt!r}')
+    return IDtype(nm)
+
+
+def promote_types(a, b):
+    """numpy's promotion of two integer dtypes: same signedness -> the wider; mixed -> the signed type that holds both."""
+    a, b = _as_idtype(a), _as_idtype(b)
+    (ba, bb) = (BITS[a.name], BITS[b.name])
+    if a.signed == b.signed:
+        return a if ba >= bb else b
+    (s_, u_) = (a, b) if a.signed else (b, a)
+    (bs, bu) = (BITS[s_.name], BITS[u_.name])
+    if bs > bu:
+        return s_
+    if bu >= 64:
+        raise StubGap('promotion of uint64 with a signed type (float64)')
+    return IDtype('int' + str(bu * 2))
+
+
+result_type = promote_types
 
 
 class FDtype:
